@@ -18,6 +18,19 @@ CLAIMS = {
    design_ref="5/C13"),
 }
 
+ # C10
+CLAIMS["C10"] = dict(
+   text="Lean 4 theorems about a model of crypto_dh.c over Nat: the model's BN_mod_exp (square-and-multiply) equals a^e mod m; "
+        "blinded_modexp returns a^(2^258+x) mod p as exactly 256 big-endian bytes for every private value, every peer value and "
+        "EVERY blinding value (hence blinding-independence and agreement); the sanity check accepts exactly the values below p. "
+        "The modulus bytes, two_exp_256, the number of BN_adds, lengths and the memcmp comparison are re-extracted from the source "
+        "on every run and proved equal to RFC 3526 / the documented constants; the model is run against the real code (OpenSSL BN) "
+        "on boundary peers 0,1,p-1,p,p+1,2^2048-1, leading-zero results and injected entropy failure.",
+   note=PROOF_NOTE + "OpenSSL's BN_* functions are modelled as the arithmetic they name (not verified); crypto_entropy_read is scripted. "
+        "The pi-formula for the RFC 3526 prime is not proved; the prime is compared literally with the RFC's hex and with OpenSSL's own copy.",
+   technique="Lean 4 proof (number-theoretic identities + encoding lemmas) + extracted constants + model/implementation correspondence",
+   design_ref="5/C10")
+
 PENDING = "check not built yet in this round (see DESIGN.md section 5 for the plan); nothing is claimed for it"
 
 def main():
